@@ -88,10 +88,10 @@ func (w *World) balDelta(ctx sdk.Context, a sdk.AccAddress, before sdk.Coins) []
 }
 
 type position struct {
-	d    sdk.AccAddress
-	v    sdk.ValAddress
-	a    string
-	bal  math.Int
+	d     sdk.AccAddress
+	v     sdk.ValAddress
+	a     string
+	bal   math.Int
 	balOk bool
 }
 
@@ -524,7 +524,7 @@ func (w *World) queryProbes(ctx sdk.Context, pos []position) []Probe {
 				"g_rate": a.RewardChangeRate.String(), "g_wmin": a.RewardWeightRange.Min.String(), "g_wmax": a.RewardWeightRange.Max.String(),
 				"g_start_unix": fmt.Sprint(a.RewardStartTime.Unix()), "g_start_nanos": fmt.Sprint(a.RewardStartTime.UnixNano()),
 				"g_lastChg_unix": fmt.Sprint(a.LastRewardChangeTime.Unix()), "g_lastChg_nanos": fmt.Sprint(a.LastRewardChangeTime.UnixNano()),
-				"g_init": fmt.Sprint(a.IsInitialized),
+				"g_init":       fmt.Sprint(a.IsInitialized),
 				"g_start_nsec": fmt.Sprint(a.RewardStartTime.Nanosecond()), "g_lastChg_nsec": fmt.Sprint(a.LastRewardChangeTime.Nanosecond()),
 			}
 			return nil
